@@ -108,7 +108,10 @@ fn earlier(prev: &[u64], kind: u64) -> Vec<usize> {
 const ISA_ALPHABET: &[u8] = b"rv64imafdcbhsu_zicsrfencepbmtoqx0123456789 ";
 
 fn isa_string(rng: &mut Rng, len: usize) -> Sx {
-    let b: Vec<u8> = (0..len).map(|_| if rng.chance(1, 20) { rng.range(1, 127) as u8 } else { *rng.pick(ISA_ALPHABET) }).collect();
+    let mut b: Vec<u8> = (0..len).map(|_| if rng.chance(1, 20) { rng.range(1, 127) as u8 } else { *rng.pick(ISA_ALPHABET) }).collect();
+    if rng.chance(1, 10) {
+        crate::tcommon::odd_string(rng, &mut b);
+    }
     l(vec![a(1), bytes(&b)])
 }
 
